@@ -95,6 +95,20 @@ impl PackedGroupKeys {
             })
             .collect::<Option<Vec<_>>>()?;
 
+        // Footer statistics describe BASE columns (see PackedJoinKeys::key_bounds).
+        // A group key the input computes (`SELECT a, b - 64 AS b ... GROUP BY a, b`)
+        // merely re-uses a base column's name: its values leave that column's
+        // range (negative here), and the shift/mask unpacking then returns
+        // garbage keys.
+        for c in &cols {
+            if matches!(
+                super::packed_join_keys::column_origin(&agg.input, c),
+                super::packed_join_keys::ColumnOrigin::Computed
+            ) {
+                return None;
+            }
+        }
+
         // Output field types must be plain ints (also guards non-column
         // schemas); nullable keys are fine — NULLs in either column make the
         // packed expression NULL, which groups them together. That matches
